@@ -59,6 +59,9 @@ def configs(tier):
                                      _cost=500 if st in ('uniform', 'geometric') else 100))
         cfgs.append(dict(group='selfcomp', cls=cls, mode='static', storage='batch', imputer='product', d=3, q=1, T=3, cap=2, _cost=3000))
         cfgs.append(dict(group='selfcomp', cls=cls, mode='static', storage='batch', imputer='joint', d=3, q=1, T=3, cap=2, _cost=3000))
+        for mode in ('static', 'dynamic'):
+            # replay B is configured with the very objects replay A was given (a user re-using their list of feature names)
+            cfgs.append(dict(group='selfcomp', cls=cls, mode=mode, storage='batch', imputer='joint', d=2, q=1, T=T, cap=2, share=True, _cost=100))
         if tier == 'thorough':
             cfgs.append(dict(group='selfcomp', cls=cls, mode='dynamic', storage='geometric', imputer='joint', d=3, q=1, T=3, cap=2, _cost=5000))
     for cls in ('BatchSage', 'IntervalSage'):
@@ -141,6 +144,12 @@ class ReplayRandom:
         return arr[list(order)]
 
     def seed(self, *a, **k): pass
+
+    def shuffle(self, seq):
+        items = list(seq)
+        order = self._next('shuffle', len(items))
+        for pos, src in enumerate(order):
+            seq[pos] = items[src]
 
     def Random(self, seed=None): return _private_generator(self.env, seed, self.entropy, PRIVATE)
 
@@ -280,8 +289,13 @@ def _build(env, cfg, data, fresh=False):
     with other identities (strings from a parser).  "Identically configured" means equal, not identical."""
     import sys as _sys
     cls = IncrementalSage if cfg['cls'] == 'IncrementalSage' else IncrementalPFI
-    names = names_for('str', cfg['d'])
-    names = [_fresh_str(n) for n in names] if fresh else [_sys.intern(n) for n in names]
+    if cfg.get('share') and 'names_object' in data:
+        names = data['names_object']          # the caller re-uses their own (mutable) list of feature names for the next explainer
+        fresh = False
+    else:
+        names = names_for('str', cfg['d'])
+        names = [_fresh_str(n) for n in names] if fresh else [_sys.intern(n) for n in names]
+        data['names_object'] = names
     strategy = _fresh_str(cfg['imputer']) if fresh else _sys.intern(cfg['imputer'])
     model, loss = UFModel(env, names), UFLoss(env)
     dynamic = cfg['mode'] == 'dynamic'
@@ -475,20 +489,68 @@ def _tree_seed(env, cfg):
                   detail=f"TreeStorage() builds river learners with seed={seeds}: river then uses random.Random(None), i.e. OS entropy")
         ts2 = TreeStorage(cat_feature_names=['c1', 'c2'], num_feature_names=['a'], seed=5)
         env.claim('explicit_seed_forwarded', all(getattr(m, 'seed', None) == 5 for m in ts2._storage_x.values()))
+        changed = _import_side_effects()
+        env.claim('importing_the_library_leaves_process_wide_state_alone', not changed,
+                  detail=f"changed by `import ixai` (before, after): {changed}")
+        del RESEEDS[:]
         env.claim('construction_leaves_the_global_generators_reproducible', _states_after_construction() == _states_after_construction(),
                   detail='after seeding both global generators identically and constructing TreeStorage(), TreeImputer and the '
                          'other library objects, the states of random / numpy.random differ between two runs: a constructor '
                          're-seeded a global generator from entropy')
+        env.claim('constructors_never_reseed_a_global_generator', not RESEEDS,
+                  detail=f"calls made while constructing storages / imputers (an explicit seed argument belongs to the object, not to "
+                         f"the process-wide generators every other component draws from): {RESEEDS[:4]}")
+
+
+RESEEDS = []
+
+
+def _import_side_effects():
+    """process-wide interpreter state before / after `import ixai` in a fresh interpreter: warning filters, NumPy's
+    floating-point error handling and print options, the global generator states"""
+    import json
+    import subprocess
+    import sys
+    code = (
+        "import json, random, warnings, numpy as np\n"
+        "random.seed(5); np.random.seed(5)\n"
+        "def snap():\n"
+        "    st = np.random.get_state()\n"
+        "    return {'warning_filters': [str(f) for f in warnings.filters], 'numpy_errstate': np.geterr(),\n"
+        "            'numpy_printoptions': {k: str(v) for k, v in np.get_printoptions().items()},\n"
+        "            'python_generator': hash(random.getstate()), 'numpy_generator': hash(st[1].tobytes()) ^ st[2]}\n"
+        "import river, sklearn, tqdm\n"            # third-party imports of the library are not the library's side effects
+        "try:\n    import torch\nexcept Exception:\n    pass\n"
+        "before = snap()\n"
+        "import ixai, ixai.explainer, ixai.storage, ixai.imputer, ixai.utils.tracker, ixai.utils.wrappers, ixai.utils.validators\n"
+        "after = snap()\n"
+        "print(json.dumps({k: [before[k], after[k]] for k in before if before[k] != after[k]}))\n")
+    r = subprocess.run([sys.executable, '-c', code], capture_output=True, text=True, timeout=600)
+    if r.returncode != 0:
+        raise HarnessError(f"import probe failed: {r.stderr[-400:]}")
+    return json.loads(r.stdout.strip().splitlines()[-1])
 
 
 def _states_after_construction():
-    """state of both global generators after building one object of every storage / imputer class from identical seeds"""
+    """state of both global generators after building one object of every storage / imputer class from identical seeds;
+    every call of random.seed / numpy.random.seed made on the way is recorded in RESEEDS"""
     from ixai.storage.tree_storage import TreeStorage
     from ixai.imputer import TreeImputer
     _real_random.seed(23)
     _real_np.random.seed(23)
+    real_py_seed, real_np_seed = _real_random.seed, _real_np.random.seed
+    _real_random.seed = lambda *a, **k: (RESEEDS.append(('random.seed', a)), real_py_seed(*a, **k))[1]
+    _real_np.random.seed = lambda *a, **k: (RESEEDS.append(('numpy.random.seed', a)), real_np_seed(*a, **k))[1]
+    try:
+        return _construct_everything(TreeStorage, TreeImputer)
+    finally:
+        _real_random.seed, _real_np.random.seed = real_py_seed, real_np_seed
+
+
+def _construct_everything(TreeStorage, TreeImputer):
     ts = TreeStorage(cat_feature_names=['c1'], num_feature_names=['a'])
     TreeStorage(cat_feature_names=['c1'], num_feature_names=['a'], seed=None)
+    TreeStorage(cat_feature_names=['c1'], num_feature_names=['a'], seed=7)
     model = lambda x: {'output': 0.0}         # noqa: E731
     TreeImputer(model, ts)
     for o in (BatchStorage(), IntervalStorage(size=3), SequenceStorage(), UniformReservoirStorage(), GeometricReservoirStorage(size=3)):
@@ -518,7 +580,11 @@ def _tree_run(seed_kw):
 
 def _tree_seed_replay(env):
     """two real replays of a 1000-point drifting stream with both global generators seeded identically"""
+    del RESEEDS[:]
     env.claim('construction_leaves_the_global_generators_reproducible', _states_after_construction() == _states_after_construction())
+    env.claim('constructors_never_reseed_a_global_generator', not RESEEDS, detail=f"{RESEEDS[:4]}")
+    changed = _import_side_effects()
+    env.claim('importing_the_library_leaves_process_wide_state_alone', not changed, detail=f"changed by `import ixai` (before, after): {changed}")
     a, b = _tree_run({}), _tree_run({})
     env.claim('tree_learners_not_entropy_seeded_by_default', a == b,
               detail='two identically seeded replays of TreeStorage() (default seed) ended with different leaf reservoirs')
